@@ -48,6 +48,7 @@ SrcChunkCall(e, want) ==      \* chunk source driver asked for `want` octets
        ELSE LET b == NextB(e.ss)
                 e2 == [e1 EXCEPT !.ss = Rest(e.ss)]
             IN IF b <= 0 THEN Ret(b, e2)
+               ELSE IF b = 9 THEN Ret(EINTR, e2)       \* behaviour 9: three hundred interruptions in a row (harness) - to a caller that retries, the same as one
                ELSE LET d == MinOf(Amount(b, want), e.L - e.pos) IN Ret(d, [e2 EXCEPT !.pos = e.pos + d])
 SrcOctetCall(e) ==            \* octet source driver
     LET e1 == [e EXCEPT !.sc = e.sc + 1]
@@ -55,18 +56,19 @@ SrcOctetCall(e) ==            \* octet source driver
        ELSE IF e.pos >= e.L THEN Ret(ENODATA, e1)
        ELSE LET b == NextB(e.ss)
                 e2 == [e1 EXCEPT !.ss = Rest(e.ss)]
-            IN IF b <= 0 THEN Ret(b, e2) ELSE Ret(1, [e2 EXCEPT !.pos = e.pos + 1])
+            IN IF b <= 0 THEN Ret(b, e2) ELSE IF b = 9 THEN Ret(EINTR, e2) ELSE Ret(1, [e2 EXCEPT !.pos = e.pos + 1])
 Tok(i) == i % 256                                    \* value of stream octet number i
 Tokens(from, k) == [i \in 1..k |-> Tok(from + i)]  \* stream octets from+1 .. from+k
 SinkChunkCall(e, data) ==     \* chunk sink driver offered `data`
     LET b == NextB(e.ks)
         e1 == [e EXCEPT !.kc = e.kc + 1, !.ks = Rest(e.ks)]
     IN IF b <= 0 THEN Ret(b, e1)
+       ELSE IF b = 9 THEN Ret(EINTR, e1)
        ELSE LET d == Amount(b, Len(data)) IN Ret(d, [e1 EXCEPT !.sink = e.sink \o Take(data, d)])
 SinkOctetCall(e, o) ==
     LET b == NextB(e.ks)
         e1 == [e EXCEPT !.kc = e.kc + 1, !.ks = Rest(e.ks)]
-    IN IF b <= 0 THEN Ret(b, e1) ELSE Ret(1, [e1 EXCEPT !.sink = Append(e.sink, o)])
+    IN IF b <= 0 THEN Ret(b, e1) ELSE IF b = 9 THEN Ret(EINTR, e1) ELSE Ret(1, [e1 EXCEPT !.sink = Append(e.sink, o)])
 
 ---------------------------------------------------------------------------
 (* the library's adaptors and loops.  `got` = octets placed into the destination so far (in order) *)
@@ -244,6 +246,9 @@ Next == /\ phase[1] = "b" /\ ev' = Boot
               \/ /\ api \in {"put", "putam"}
                  /\ \E n \in -1..MaxN, ks \in Scripts(Beh, MaxScript) :
                        (n > 0 \/ api = "put") /\ (n < 0 => Len(ks) <= 1) /\ phase' = <<"c", api, 2, k, n, 0, 0, <<>>, ks>>
+              \/ /\ api \in {"get", "put"}                       \* long runs of interruptions inside an exact transfer
+                 /\ \E n \in {2, 3}, sc \in {<<9>>, <<1, 9>>, <<9, 1>>, <<2, 9, 9>>, <<9, EIO>>, <<1, 9, EIO>>, <<9, 0, 9>>} :
+                       phase' = IF api = "get" THEN <<"c", api, k, 2, n, 4, 0, sc, <<>>>> ELSE <<"c", api, 2, k, n, 0, 0, <<>>, sc>>
               \/ /\ api \in {"putbig", "getbig"}
                  /\ \E n4 \in BigNs, ks \in Scripts(BBeh, 2) : phase' = <<"c", api, 2, 2, n4, 0, 0, <<>>, ks>>
               \/ /\ api = "geto" /\ \E L \in {0, 1}, ss \in Scripts(Beh, 1) : phase' = <<"c", api, k, 2, 1, L, 0, ss, <<>>>>
